@@ -125,6 +125,7 @@ def run_case(ctx, model, env, orc, name, e, stream):
     ctx.case({"name": name, "skeleton": G.skeleton(e)[:300]}, nontrivial, sample_every=400)
     ctx.count(f"{stream}:cases")
     ctx.count(f"depth={G.depth(e)}")
+    ctx.count("kind-uniform" if G.kind_uniform(e) else ("mixed-kind:adjoint-inside(metadata only)" if G.uses_adjoint(e) else "mixed-kind(no adjoint values)"))
     if impl[0] == "err":
         ctx.count(f"rejected:{impl[1]}")
     else:
